@@ -89,11 +89,31 @@ static void settle(const std::vector<Frame> &got) {
 }
 
 static std::string caseDesc; static bool caseRefusal = false, caseFast = false;
+
+// C04: nothing may reach the driver before CANOpen() succeeded and 200 ms have passed
+static void checkEarly(const std::vector<Frame> &got) {
+  if (got.empty()) return;
+  if (N->openedAt < 0 || (int64_t)g_now < N->openedAt + 200)
+    C.fail("C04:early-frame", "%zu frame(s) at t=%llu, CAN opened at %lld", got.size(), (unsigned long long)g_now, (long long)N->openedAt);
+}
+// the node opened during this op: every device of a claimant node announces its address now
+static long openedNow(bool wasOpen) {
+  if (wasOpen || !N->isOpen()) return 0;
+  C.count("opened_during_op");
+  if (!(mode == 1 || mode == 2)) return 0;
+  for (int d = 0; d < nDev; d++) {
+    std::vector<unsigned char> nm(8); uint64_t name = N->name(d); for (int i = 0; i < 8; i++) nm[i] = (unsigned char)(name >> (8 * i));
+    owed.push_back({refFrames(refCanId(6, 60928UL, N->src(d), 255), nm, false, 0)[0], C.opline});
+    claimUntil[d] = g_now + 250;
+  }
+  return nDev;
+}
+static long openedNow(bool wasOpen);
 static void endCase() {
   if (N) {
     // flush: the driver accepts everything now; every owed non-optional frame must arrive
     N->acceptScript.clear(); N->acceptDefault = true;
-    for (int i = 0; i < 3; i++) N->ParseMessages();
+    for (int i = 0; i < 3; i++) { bool wasOpen = N->isOpen(); N->ParseMessages(); openedNow(wasOpen); }
     settle(N->sent); N->sent.clear();
     for (auto &o : owed) { C.fail("C11:lost-frame", "frame %s of a successful send (op %ld) never reached the driver", frameStr(o.f).c_str(), o.opline); break; }
     owed.clear();
@@ -105,7 +125,8 @@ static void endCase() {
 
 static void exec(const std::string &line) {
   std::vector<std::string> w = split(line);
-  if (w[0] == "reset") {
+  if (w[0] == "reset" || w[0] == "reset0") {
+    bool settle0 = w[0] == "reset";
     // the harness itself fills in the settled state, so the op line is produced here
     endCase();
     bool t64 = w[1] == "t64"; (void)t64;
@@ -120,13 +141,13 @@ static void exec(const std::string &line) {
     N->SetMode((tNMEA2000::tN2kMode)mode, 20);
     N->EnableForward(false);
     N->SetN2kCANSendFrameBufSize(qsize);
-    openAndSettle(*N, 700);
+    if (settle0) openAndSettle(*N, 700);
     N->sent.clear();
-    std::string l = "reset "; l += w[1]; char b[96];
+    std::string l = settle0 ? "reset " : "reset0 "; l += w[1]; char b[96];
     snprintf(b, sizeof b, " %u %d %llu", (unsigned)N->maxq(), mode, (unsigned long long)g_now); l += b;
     for (int i = 0; i < nDev; i++) { snprintf(b, sizeof b, " %u:%llx", N->src(i), (unsigned long long)N->name(i)); l += b; }
     C.op("%s", l.c_str()); caseDesc += l;
-    if (!N->isOpen()) C.fail("harness:not-open", "node did not open");
+    if (settle0 && !N->isOpen()) C.fail("harness:not-open", "node did not open");
     C.out("ok"); return;
   }
   C.op("%s", line.c_str()); C.count("op_" + w[0]); caseDesc += line; caseDesc += ';';
@@ -139,7 +160,11 @@ static void exec(const std::string &line) {
   if (w[0] == "accdef") { N->acceptDefault = w[1] == "1"; C.out("ok"); return; }
   if (w[0] == "t") { g_now += strtoull(w[1].c_str(), 0, 10); C.out("ok"); return; }
   if (w[0] == "q") { C.out("%u %u", N->qRead(), N->qWrite()); return; }
-  if (w[0] == "poll") { long r0 = N->refused; N->ParseMessages(); if (N->refused != r0) caseRefusal = true; settle(N->sent); C.outs(std::string("- ") + (N->sent.empty() ? "-" : N->takeSent())); N->sent.clear(); return; }
+  if (w[0] == "canopen") { N->openOk = w[1] == "1"; C.out("ok"); return; }
+  if (w[0] == "poll") { long r0 = N->refused; bool wasOpen = N->isOpen(); unsigned nq0 = N->queued(); N->ParseMessages(); if (N->refused != r0) caseRefusal = true;
+    long cl = openedNow(wasOpen); long produced = (long)N->sent.size() + (long)N->queued() - (long)nq0;
+    if (produced != cl) C.fail("C04:poll-produces-frames", "poll produced %ld frames, %ld address claims expected", produced, cl);
+    checkEarly(N->sent); settle(N->sent); C.outs(std::string("- ") + (N->sent.empty() ? "-" : N->takeSent())); N->sent.clear(); return; }
   if (w[0] == "claim") {
     int d = atoi(w[1].c_str()); if (d < 0 || d >= nDev) { C.out("bad-op"); return; }
     unsigned nq0 = N->queued(); long r0 = N->refused;
@@ -163,11 +188,14 @@ static void exec(const std::string &line) {
     tN2kMsg m; memset(m.Data, 0x55, sizeof m.Data);
     m.Priority = (unsigned char)prio; m.PGN = pgn; m.Source = (unsigned char)src; m.Destination = (unsigned char)dst; m.DataLen = len;
     if (!data.empty()) memcpy(m.Data, data.data(), data.size() > 223 ? 223 : data.size());
-    unsigned nq0 = N->queued(); long r0 = N->refused;
+    unsigned nq0 = N->queued(); long r0 = N->refused; bool wasOpen = N->isOpen();
     bool ret = N->SendMsg(m, d);
     if (N->refused != r0) caseRefusal = true;
     std::vector<Frame> got = N->sent; N->sent.clear();
-    long produced = (long)got.size() + (long)N->queued() - (long)nq0;     // frames this call produced (sent directly or queued)
+    checkEarly(got);
+    long cl = openedNow(wasOpen); nq0 += (unsigned)cl;                     // claims produced by an open inside this call come first in the stream
+    long produced = (long)got.size() + (long)N->queued() - (long)nq0;     // frames this call produced for the message itself
+    if (!N->isOpen() && (ret || produced)) C.fail("C04:send-before-open", "ret=%d frames=%ld", (int)ret, produced);
     // ---------------- oracle (C01 framing, C04 gate, C11 queue)
     int di = d < 0 ? 0 : d;
     bool devOk = d < nDev;
@@ -231,7 +259,8 @@ static unsigned long genPGN(Rng &R) {
   return (unsigned long)R.range(0, 0x3FFFF);
 }
 
-static void genSend(Rng &R, int forceDev = -2, long forcePgn = -1, int forceLen = -1) {
+static void genSend(Rng &R, int forceDev = -2, long forcePgn = -1, int forceLen = -1);
+static void genSend(Rng &R, int forceDev, long forcePgn, int forceLen) {
   int d = forceDev != -2 ? forceDev : (R.chance(1, 15) ? -1 : (R.chance(1, 25) ? nDev + (int)R.below(2) : (int)R.below(nDev)));
   unsigned prio = R.chance(1, 12) ? (unsigned)R.range(8, 255) : (unsigned)R.below(8);
   unsigned long pgn = forcePgn >= 0 ? (unsigned long)forcePgn : genPGN(R);
@@ -243,6 +272,23 @@ static void genSend(Rng &R, int forceDev = -2, long forcePgn = -1, int forceLen 
   if (R.chance(1, 5)) for (auto &b : data) b = 0xff;
   char hd[64]; snprintf(hd, sizeof hd, "send %d %u %lu %u %u %d ", d, prio, pgn, src, dst, len);
   exec(std::string(hd) + hex(data.data(), data.size()));
+}
+
+static void openingCase(Rng &R, const char *flavor) {
+  unsigned qsize = R.chance(1, 3) ? 40 : (unsigned)R.range(2, 7); int devs = R.chance(1, 2) ? 1 : (int)R.range(1, 4);
+  int md = R.chance(1, 4) ? (int)R.below(5) : (R.chance(1, 2) ? 1 : 2);
+  uint64_t origin = R.chance(1, 3) ? 0xFFFFFFFFULL - R.below(600) : (R.chance(1, 2) ? R.below(100000) : 0x7FFFFFFFULL - R.below(600));
+  char b[160]; snprintf(b, sizeof b, "reset0 %s %u %d %d %llu", flavor, qsize, md, devs, (unsigned long long)origin); exec(b);
+  if (R.chance(1, 4)) exec("canopen 0");
+  int nops = (int)R.range(8, 40);
+  for (int i = 0; i < nops; i++) {
+    unsigned k = (unsigned)R.below(100);
+    if (k < 30) exec("t " + std::to_string(R.chance(1, 3) ? R.range(0, 3) : (R.chance(1, 2) ? R.range(190, 210) : R.range(0, 400))));
+    else if (k < 65) exec("poll");
+    else if (k < 90) genSend(R, (int)R.below(devs), R.chance(1, 4) ? 60928 : -1, R.chance(1, 2) ? (int)R.range(0, 8) : -1);
+    else if (k < 96) exec(std::string("canopen ") + (R.chance(2, 3) ? "1" : "0"));
+    else exec("acc " + std::string(R.chance(1, 2) ? "01" : "10"));
+  }
 }
 
 static void randomCase(Rng &R, const char *flavor) {
@@ -278,7 +324,9 @@ int main(int argc, char **argv) {
   if (!C.replay.empty()) {
     for (auto &l : readLines(C.replay)) {
       std::vector<std::string> w = split(l);
-      if (w[0] == "reset" && w.size() >= 5 && w[4].find(':') != std::string::npos) {
+      if (w[0] == "reset0" && w.size() >= 6) {
+        int devs = (int)w.size() - 5; char b[160]; snprintf(b, sizeof b, "reset0 %s %s %s %d %s", flavor, w[2].c_str(), w[3].c_str(), devs, w[4].c_str()); exec(b);
+      } else if (w[0] == "reset" && w.size() >= 5 && w[4].find(':') != std::string::npos) {
         // recorded form "reset fl qsize mode now src:name..." -> regenerate: devices = number of src:name fields; origin = now-700
         int devs = (int)w.size() - 5; unsigned long long now = strtoull(w[4].c_str(), 0, 10);
         char b[160]; snprintf(b, sizeof b, "reset %s %s %s %d %llu", flavor, w[2].c_str(), w[3].c_str(), devs, now >= 700 ? now - 700 : 0); exec(b);
@@ -309,7 +357,7 @@ int main(int argc, char **argv) {
   }
   // (3) random cases with back-pressure
   int ncases = C.thorough ? 1500 : 150;
-  for (int i = 0; i < ncases; i++) randomCase(R, flavor);
+  for (int i = 0; i < ncases; i++) { randomCase(R, flavor); if (i % 3 == 0) openingCase(R, flavor); }
   // (4) exhaustive accept/refuse patterns over short op sequences, small queues
   {
     int L = C.thorough ? 10 : 7;
